@@ -247,11 +247,10 @@
                    bindings)
             ((lambda (vars vals)
                (if (identifier? (cadr expr))
-                   `((,(rename 'lambda) ,vars
-                      (,(rename 'letrec) ((,(cadr expr)
-                                           (,(rename 'lambda) ,vars
-                                            ,@(cdr (cddr expr)))))
-                       (,(cadr expr) ,@vars)))
+                   `((,(rename 'letrec) ((,(cadr expr)
+                                          (,(rename 'lambda) ,vars
+                                           ,@(cdr (cddr expr)))))
+                      ,(cadr expr))
                      ,@vals)
                    ((lambda (res)
                       (pair-source-set! res (pair-source expr))
